@@ -929,6 +929,19 @@ func mutations(r *rng, valid []byte, n int) [][]byte {
 	return out
 }
 
+// cfgHasStrayLine: some line is neither blank, nor a setting (no '='), nor possibly a section header (no '[')
+func cfgHasStrayLine(b []byte) bool {
+	for _, l := range strings.Split(string(b), "\n") {
+		l = strings.TrimSuffix(l, "\r")
+		t := strings.TrimSpace(strings.ReplaceAll(l, "\t", ""))
+		if t == "" || strings.ContainsAny(l, "=[") {
+			continue
+		}
+		return true
+	}
+	return false
+}
+
 func genC19(ctx *Ctx, r *rng) []Case {
 	var cases []Case
 	nmut := tierN(ctx, 40, 400)
@@ -1026,7 +1039,15 @@ func genC19(ctx *Ctx, r *rng) []Case {
 		cfgv := []byte("[user]\n\tname = Test User\n\temail = test@example.com\n[core]\n\teditor = vim -f\n[alias]\n\tco = x=y [z] # not a comment\n")
 		c2 := Case{Name: "config-damaged", Tag: "config-damaged"}
 		for _, m := range mutations(r, cfgv, nmut*2) {
-			c2.add("config.parse " + hx(m))
+			i := c2.add("config.parse " + hx(m))
+			// the specification, for the damage it can name without re-implementing the reader: a line that is not blank,
+			// holds neither '=' nor '[' (so it is neither a setting nor a section header) makes the file unreadable
+			if cfgHasStrayLine(m) {
+				if c2.Expect == nil {
+					c2.Expect = map[int]string{}
+				}
+				c2.Expect[i] = "err"
+			}
 		}
 		cases = append(cases, c2)
 		cmv := []byte("tree " + a + "\nparent " + b2 + "\nauthor Test User <test@example.com> 1700000000 +0900\ncommitter A  B <a@b.cc> 1700000001 -0330\n\nsubject: x\n\nbody\nauthor not a header\n")
